@@ -12,7 +12,7 @@ META = {
                    'row, and allocate width*height+1 bytes; R01.6 every literal of the sample grid agrees with SAMPLE_SHIFT (derived consts, '
                    'fixed-point conversion helpers, 1<<SHIFT sample rows per pixel, rounding constant = half a sample on both span ends, '
                    'partial-cell shift, full-cell value, straight-edge slope scale).',
-    'decides': ['R01.8 insertion-row guards of add_edge', 'R01.1 sorted-at-scan typestate', 'R01.2 winding accounting', 'R01.3 winding-rule table', 'R01.4 subpath closing and curve flags', 'R01.5 raster blitter geometry', 'R01.6 sample-grid constants'],
+    'decides': ['R01.13 every sample row of the scan window is scanned or was found empty', 'R01.14 the x of an active edge is stored by add_edge and step only', 'R01.8 insertion-row guards of add_edge', 'R01.1 sorted-at-scan typestate', 'R01.2 winding accounting', 'R01.3 winding-rule table', 'R01.4 subpath closing and curve flags', 'R01.5 raster blitter geometry', 'R01.6 sample-grid constants'],
     'does_not_decide': ['that the numbers are right: slope values and stepping error, rounding beyond the constants, 16k/16k-1 accumulation and saturated_add, exactness at surface borders, edge culling arithmetic, curve set-up (fixed-point scale analysis R01.7 is not built)'],
     'assumptions': ['Rasterizer::reset leaves the active list empty, hence sorted (R10.2)'],
     'trusted_base': ['typed-arena 2.0'],
